@@ -262,6 +262,14 @@ func (c *codecCtx) one(mi *msgInfo, v *V, class string) {
 		if m := p.ProtoReflect().ProtoMethods(); m != nil && len(orig) == 3 {
 			mo, err := m.Marshal(protoiface.MarshalInput{Message: p.ProtoReflect(), Buf: append([]byte{}, orig...), Flags: protoiface.MarshalDeterministic})
 			o.withKey(key).prop("C04", err == nil && bytes.Equal(mo.Buf, append(append([]byte{}, orig...), det.b...)), "ProtoMethods.Marshal with Buf prefix: "+hx(mo.Buf))
+			// C05: the deterministic flag alone (a caller that did not size the message first) must give the deterministic bytes,
+			// on every repetition
+			sameDirect := err == nil && bytes.Equal(mo.Buf[minInt(len(orig), len(mo.Buf)):], det.b)
+			for k := 0; k < 3 && sameDirect; k++ {
+				m2, err2 := m.Marshal(protoiface.MarshalInput{Message: p.ProtoReflect(), Flags: protoiface.MarshalDeterministic})
+				sameDirect = err2 == nil && bytes.Equal(m2.Buf, det.b)
+			}
+			o.withKey(key).prop("C05", sameDirect, fmt.Sprintf("%s %s: ProtoMethods().Marshal with Flags=MarshalDeterministic (without UseCachedSize) does not give the deterministic bytes %s", id, val, hx(det.b)))
 		}
 	}
 	// C02 / C04: the reference on the same value (dynamicpb stores float32 as float64, which quiets
@@ -300,15 +308,41 @@ func (c *codecCtx) one(mi *msgInfo, v *V, class string) {
 		o.withKey(key).prop("C01", got == want, fmt.Sprintf("%s: round trip (%s) of %s gives %s (bytes %s)", id, name, want, got, hx(enc)))
 	}
 	// C07: the output shares no memory with the message: scribble on it and marshal again
+	// (compared with a COPY taken before: if the result aliases the message, the second result aliases the same memory)
+	orig := append([]byte{}, det.b...)
 	scr := det.b
 	for i := range scr {
 		scr[i] ^= 0xFF
 	}
 	again := catchMarshal(proto.MarshalOptions{Deterministic: true}, p)
+	againCopy := append([]byte{}, again.b...)
+	afterScribble := si.fromGo(mi, reflect.ValueOf(p)).String()
 	for i := range scr {
 		scr[i] ^= 0xFF
 	}
-	o.withKey(key).prop("C07", bytes.Equal(again.b, scr), id+": overwriting Marshal's result changed the message: "+val)
+	o.withKey("marshal-alias/"+id).prop("C07", bytes.Equal(againCopy, orig) && afterScribble == val,
+		fmt.Sprintf("%s: overwriting Marshal's result changed the message (the result shares memory with it): %s marshals to %s, after overwriting that buffer the struct reads %s and marshals to %s", id, val, hx(orig), afterScribble, hx(againCopy)))
+	// the same for the non-deterministic result and for MarshalAppend with an empty prefix
+	for _, mk := range []func() mres{
+		func() mres { return catchMarshal(proto.MarshalOptions{}, p) },
+		func() mres {
+			b, err := proto.MarshalOptions{Deterministic: true}.MarshalAppend([]byte{}, p)
+			return mres{b: b, err: err}
+		},
+	} {
+		r1 := mk()
+		if r1.err != nil || r1.pan != nil {
+			continue
+		}
+		for i := range r1.b {
+			r1.b[i] ^= 0xFF
+		}
+		after := si.fromGo(mi, reflect.ValueOf(p)).String()
+		for i := range r1.b {
+			r1.b[i] ^= 0xFF
+		}
+		o.withKey("marshal-alias/"+id).prop("C07", after == val, fmt.Sprintf("%s: overwriting a marshalled result changed the message: %s now reads %s", id, val, after))
+	}
 
 	// model correspondence for decode on the canonical encoding
 	c.decCase(mi, det.b, false, false, nil)
